@@ -127,7 +127,7 @@ func init() {
 	})
 	register(&PropDef{
 		ID:   "C17",
-		Rule: "in/overlap on list pairs with total length on both sides of the 100-element switch (0,1,49+50,50+50,99+1,1+99,300+5,...), duplicates, shared/disjoint elements, both element types, empty literals in either position, pre-built sets, type mismatches; conventionally written infix expressions over & && | || = == evaluated with one spelling, with the other spelling of the same operators, and as the prefix form; expression-level cases through Compile/Eval under optimisation subsets: list literals written with zero-padded and signed integers and probed with their own elements, named []string/[]int64 constants of the configuration as operands, list constants that are views of one array; non-trivial = both operands are collections/probe of matching kind; distinct = distinct terms",
+		Rule: "in/overlap on list pairs with total length on both sides of the 100-element switch (0,1,49+50,50+50,99+1,1+99,300+5,...), duplicates, shared/disjoint elements, both element types, empty literals in either position, pre-built sets, type mismatches; conventionally written infix expressions over & && | || = == evaluated with one spelling, with the other spelling of the same operators, and as the prefix form; negated comparisons of equal operands at expression level; expression-level cases through Compile/Eval under optimisation subsets: list literals written with zero-padded and signed integers and probed with their own elements, named []string/[]int64 constants of the configuration as operands, list constants that are views of one array; non-trivial = both operands are collections/probe of matching kind; distinct = distinct terms",
 		Assumptions: []string{"lists are passed as []int64/[]string values directly to the operator and, in batch eval, as literals through Compile/Eval"},
 		Behav:       []int{5, 15, 2}, Fidelity: []int{1, 3, 4, 8, 9, 10}, Ignore: []int{6, 7, 14, 16, 17, 50}, CodeText: evalCodeText,
 		Gen:         genC17,
